@@ -24,9 +24,9 @@ use std::{
 pub static DEF: PropDef = PropDef {
     id: "C16",
     level: "exploration",
-    total: |t| t.pick(512, 17600),
+    total: |t| t.pick(256, 12000),
     run,
-    rule: "generated lines, stars and rings of 1..5 routers over 2..6 /24 subnets with 1..3 hosts each (ARP + subnet info pointing at a router of their subnet), static routes computed by breadth-first search and then perturbed: kept, deleted (black hole), redirected to another neighbour (2- and 3-cycles) or pointed at an address nobody owns; every ordered host pair sends UDP datagrams of 1..1400 bytes, two thirds through the stack (initial TTL 30) and, for off-subnet destinations, one third as hand-built IPv4/UDP frames put on the wire by the source host after ARP resolution with an initial TTL of 0, 1, 2..5, 6..29, 30..64, 255 or uniform. A reference walk over the configured tables (own longest-prefix match) predicts, per datagram, the exact sequence of IPv4 frames (network, TTL = initial-k at hop k, a router drops what arrives with TTL 0 or 1, unchanged addresses and payload) and the final delivery or silent drop; the H4 hook's frame log and the hosts' recorder applications must match it exactly, and no frame may appear later. Non-trivial = topology with a path of >=2 router hops and >=1 looping or black-holed datagram; distinct by topology+routes hash.",
+    rule: "generated lines, stars and rings of 1..5 routers over 2..6 /24 subnets with 1..3 hosts each (ARP + subnet info pointing at a router of their subnet), static /24 routes computed by breadth-first search and then perturbed: kept, deleted (black hole), redirected to another neighbour (2- and 3-cycles) or pointed at an address nobody owns, plus default, /16 and /32 host routes through a neighbour or to nobody (so that the longest match decides); every ordered host pair sends UDP datagrams of 1..1400 bytes, two thirds through the stack (initial TTL 30) and, for off-subnet destinations, one third as hand-built IPv4/UDP frames put on the wire by the source host after ARP resolution with an initial TTL of 0, 1, 2..5, 6..29, 30..64, 255 or uniform. A reference walk over the configured tables (own longest-prefix match) predicts, per datagram, the exact sequence of IPv4 frames (network, TTL = initial-k at hop k, a router drops what arrives with TTL 0 or 1, unchanged addresses and payload) and the final delivery or silent drop; the H4 hook's frame log and the hosts' recorder applications must match it exactly, and no frame may appear later. Non-trivial = topology with a path of >=2 router hops and >=1 looping or black-holed datagram; distinct by topology+routes hash.",
     assumptions: &[
         "all networks share one MTU (the router does not fragment)",
         "hosts own exactly one address; a router owns one address per attached subnet",
@@ -51,11 +51,22 @@ fn router_ip(r: usize, s: usize) -> u32 {
 
 #[derive(Clone, Debug)]
 struct Route {
-    /// destination subnet index
+    /// destination subnet index (usize::MAX for the extra routes that are not a subnet's /24)
     to: usize,
+    /// the network the route is for
+    prefix: u32,
+    len: u32,
     /// None = directly attached through `slot`
     via: Option<u32>,
     slot: u32,
+}
+
+fn mask_of(len: u32) -> u32 {
+    if len == 0 {
+        0
+    } else {
+        !0u32 << (32 - len)
+    }
 }
 
 #[derive(Clone, Debug)]
@@ -111,8 +122,8 @@ fn walk(routers: &[RouterCfg], host_gw: &HashMap<(usize, usize), Option<usize>>,
         }
         ttl -= 1;
         let r = &routers[at_router];
-        // longest prefix match: all routes are /24 here, so exact subnet match
-        let route = r.routes.iter().find(|x| x.to == dst_subnet);
+        // longest prefix match by the harness's own arithmetic (/24 per subnet, plus default, /16 and /32 routes)
+        let route = r.routes.iter().filter(|x| dst_ip & mask_of(x.len) == x.prefix).max_by_key(|x| x.len);
         let route = match route {
             Some(x) => x,
             None => return (hops, false, "no route"),
@@ -179,7 +190,7 @@ fn scenario(env: &Env, k: u64, case: u64, rng: &mut rand::rngs::SmallRng, d: &mu
     for r in 0..nr {
         for target in 0..n_sub_used {
             if let Some(slot) = routers[r].subnets.iter().position(|s| *s == target) {
-                routers[r].routes.push(Route { to: target, via: None, slot: slot as u32 });
+                routers[r].routes.push(Route { to: target, prefix: subnet(target), len: 24, via: None, slot: slot as u32 });
                 continue;
             }
             // BFS
@@ -213,7 +224,7 @@ fn scenario(env: &Env, k: u64, case: u64, rng: &mut rand::rngs::SmallRng, d: &mu
                 }
                 if first.0 != r {
                     let slot = routers[r].subnets.iter().position(|s| *s == first.1).unwrap();
-                    routers[r].routes.push(Route { to: target, via: Some(router_ip(first.0, first.1)), slot: slot as u32 });
+                    routers[r].routes.push(Route { to: target, prefix: subnet(target), len: 24, via: Some(router_ip(first.0, first.1)), slot: slot as u32 });
                 }
             }
         }
@@ -269,6 +280,33 @@ fn scenario(env: &Env, k: u64, case: u64, rng: &mut rand::rngs::SmallRng, d: &mu
             }
         }
     }
+    // less and more specific routes on top of the per-subnet /24s: a default route, a /16 covering every
+    // subnet, host routes (/32) that pull one host's traffic another way. They go through a neighbour (a
+    // detour, possibly a loop) or to an address nobody owns.
+    for r in 0..nr {
+        for kind in 0..3 {
+            if !rng.chance(1, 4) {
+                continue;
+            }
+            let slot = rng.gen_range(0..routers[r].subnets.len());
+            let sn = routers[r].subnets[slot];
+            let neigh: Vec<usize> = (0..nr).filter(|y| *y != r && routers[*y].subnets.contains(&sn)).collect();
+            let via = if neigh.is_empty() || rng.chance(1, 5) { subnet(sn) | 250 } else { router_ip(*rng.pick(&neigh), sn) };
+            let (prefix, len) = match kind {
+                0 => (0u32, 0u32),
+                1 => (0x0A00_0000, 16),
+                _ => {
+                    let s = rng.gen_range(0..n_sub_used);
+                    (host_ip(s, rng.gen_range(0..hosts_per[s])), 32)
+                }
+            };
+            if routers[r].routes.iter().any(|x| x.prefix == prefix && x.len == len) {
+                continue;
+            }
+            routers[r].routes.push(Route { to: usize::MAX, prefix, len, via: Some(via), slot: slot as u32 });
+            perturbed += 1;
+        }
+    }
     // datagrams: all ordered host pairs (capped), plus a few to unowned addresses
     let all_hosts: Vec<(usize, usize)> = (0..n_sub_used).flat_map(|s| (0..hosts_per[s]).map(move |h| (s, h))).collect();
     let mut dgrams = vec![];
@@ -299,7 +337,7 @@ fn scenario(env: &Env, k: u64, case: u64, rng: &mut rand::rngs::SmallRng, d: &mu
     let shape_name = ["line", "star", "ring"][shape];
     let desc = json!({
         "shape": shape_name, "subnets": n_sub_used, "hosts_per_subnet": hosts_per,
-        "routers": routers.iter().enumerate().map(|(i, r)| json!({"router": i, "attached": r.subnets, "routes": r.routes.iter().map(|x| format!("10.0.{}.0/24 -> {} slot {}", x.to, x.via.map(|v| format!("{}", ip(v))).unwrap_or("direct".into()), x.slot)).collect::<Vec<_>>()})).collect::<Vec<_>>(),
+        "routers": routers.iter().enumerate().map(|(i, r)| json!({"router": i, "attached": r.subnets, "routes": r.routes.iter().map(|x| format!("{}/{} -> {} slot {}", ip(x.prefix), x.len, x.via.map(|v| format!("{}", ip(v))).unwrap_or("direct".into()), x.slot)).collect::<Vec<_>>()})).collect::<Vec<_>>(),
         "host_gateways": host_gw_ip.iter().map(|(k, v)| format!("10.0.{}.{} gw {}", k.0, k.1 + 1, ip(*v))).collect::<Vec<_>>(),
         "perturbed_routes": perturbed, "datagrams": dgrams.len(), "latency_ms": lat, "scenario": k, "case": case,
     });
@@ -339,7 +377,7 @@ fn scenario(env: &Env, k: u64, case: u64, rng: &mut rand::rngs::SmallRng, d: &mu
             for (ri, r) in routers.iter().enumerate() {
                 let mut rt: IpTable<(Option<Ipv4Address>, u32)> = IpTable::new();
                 for x in &r.routes {
-                    rt.add(Ipv4Net::new(ip(subnet(x.to)), Ipv4Mask::from_bitcount(24)), (x.via.map(ip), x.slot));
+                    rt.add(Ipv4Net::new(ip(x.prefix), Ipv4Mask::from_bitcount(x.len)), (x.via.map(ip), x.slot));
                 }
                 let local: Vec<Ipv4Address> = r.subnets.iter().map(|s| ip(router_ip(ri, *s))).collect();
                 let table: IpTable<Recipient> = local.iter().enumerate().map(|(slot, a)| (*a, Recipient::new(slot as u32, None))).collect();
